@@ -6,6 +6,10 @@
 // anchors on `let .. = if compress {`, the libdeflater cluster accepts `truncate(actual_sz)` for `resize(actual_sz, 0)`.
 // The "tidied" `let uncompressed_buf_size = bytes.len(); let out_bytes = if compress {..} else { bytes };` is judged:
 // VIOLATION advertised_uncompressed_size (0 iff not compressed); it used to end as "anchor lost".
+// Mutation sweep follow-up: `Vec::with_capacity(EXPR)` accepts any arithmetic over literals and `items_in_section.len()`
+// (`+`/`*` only: pure hint, dropped, stays OK; with `-`: `assert((EXPR over int) >= 0)` is added, the code's own overflow/
+// capacity panic; `/`, calls, other names: not guessed, exit 2); `(bytes, N)` keeps its literal: `(bytes, 1)` is VIOLATION
+// advertised_uncompressed_size.
 use vstd::prelude::*;
 use vstd::std_specs::ops::*;
 use vstd::std_specs::convert::FromSpec;
